@@ -334,7 +334,7 @@ def propagate(ctx, res):
     for fname, conv in NUMERIC.items():
         kind = table.index(fname)
         for where, rows in ((fname, standalone_rows(ctx, facts, fname)[0]),
-                            (f"validate_trait_complex[case {kind}]",
+                            (f"validate_trait_complex[case{kind}]",
                              compound_rows(ctx, facts, kind)[0])):
             if rows is None:
                 raise AnalysisError(f"no compound arm for kind {kind}")
